@@ -21,6 +21,7 @@ LEVEL_TEXT = ('Bounded-exhaustive: every width and every variable-length class o
               'read back with peek = read checks.')
 LEVEL_NOTE = 'trusted: mc/ref/bits.py (TL-B primitives from block.tlb); values inside a width class by boundary representatives'
 TECHNIQUE = 'small-scope exhaustive enumeration of typed values plus explicit-state BFS over store sequences against reference encodings'
+RULE += ' After loading, the stored cell DAG must be structurally unchanged (reading is not writing - e.g. continuation cells of a snake string) and a second reader of the same cell must get the same values.'
 ASSUMPTIONS = ['interior values of wide integers are represented by boundary values; all widths and length classes are complete']
 NOT_ASSERTED = ['addr_var (MsgAddressInt$11): the library refuses it explicitly', 'integer width 0 (the property quantifies widths 1..257)']
 
